@@ -512,4 +512,37 @@ theorem run_append (W mx : Nat) (a b : List Op) (P : Pool) :
       | error e => simp [hres2]
       | ok P2 => simp [hres2, List.append_assoc]
 
+/-- `drop` has no panic branch -/
+theorem drop_ok (W mx : Nat) (P : Pool) (k n : Nat) : ∃ P', (step W mx P (.drop k) n).res = .ok P' := by
+  simp only [step]
+  cases P k with
+  | empty => exact ⟨P, rfl⟩
+  | buf b => exact ⟨P.set k .empty, rfl⟩
+  | rep r =>
+    cases r with
+    | inline lo hi code neg => exact ⟨P.set k .empty, rfl⟩
+    | heap id cap ws neg => exact ⟨P.set k .empty, rfl⟩
+
+theorem dropList_ok (W mx : Nat) (ks : List Nat) :
+    ∀ (P : Pool) (n : Nat), ∃ P', (run W mx (ks.map Op.drop) P n).res = .ok P' := by
+  induction ks with
+  | nil => intro P n; exact ⟨P, rfl⟩
+  | cons k ks ih =>
+    intro P n
+    obtain ⟨P1, h1⟩ := drop_ok W mx P k n
+    obtain ⟨P2, h2⟩ := ih P1 (step W mx P (.drop k) n).next
+    refine ⟨P2, ?_⟩
+    show (M.bind (step W mx P (.drop k)) (fun P' => run W mx (ks.map Op.drop) P') n).res = _
+    rw [M.bind_ok h1]; exact h2
+
+/-- a completed history followed by dropping registers completes -/
+theorem run_append_drop_ok (W mx : Nat) (ops : List Op) (ks : List Nat) (P : Pool) (n : Nat) {P1 : Pool}
+    (h : (run W mx ops P n).res = .ok P1) :
+    ∃ P', (run W mx (ops ++ ks.map Op.drop) P n).res = .ok P' := by
+  obtain ⟨P2, h2⟩ := dropList_ok W mx ks P1 (run W mx ops P n).next
+  refine ⟨P2, ?_⟩
+  rw [run_append]
+  show (M.bind (run W mx ops P) (fun P' => run W mx (ks.map Op.drop) P') n).res = _
+  rw [M.bind_ok h]; exact h2
+
 end Dashu.Model.Mem
